@@ -24,6 +24,7 @@ LEVEL_TEXT = (
     "injective for the alphabet in use. The numerical value of a loss and the array pipelines (FFT, moments, entropies) "
     "are not decided."
     ' Included from C08: a loss class that overrides compute_loss must keep the base pipeline order (filters before aggregation), and values returned by user-supplied callables (moment calculators) are not modified in place.'
+    ' Per-coordinate callables built in a loop / comprehension must not capture the iteration variable late (shared with C08).'
 )
 TECHNIQUE = "option-plumbing dataflow + rational normal forms against a published-formula table (path-sensitive forward substitution for MSM and the likelihood pipeline) + radix/alphabet rule"
 
